@@ -113,7 +113,7 @@ class Gen:
         lines: list[str] = []
         kind = rng.choice(["expr", "assign", "tuple_assign", "if_return", "if_elif_else_return", "if_fallthrough", "branch_assign",
                            "branch_reassign_live", "post_if_statements", "nested_if", "outside",
-                           "random_block", "random_block", "random_block", "random_block"])
+                           "random_block", "random_block", "random_block", "random_block", "local_import"])
         self.features.add(f"shape:{kind}")
         if kind == "random_block":
             self._n_local = 0
@@ -124,7 +124,15 @@ class Gen:
             return text, set(self.features)
         E = lambda d=2: self.expr(names, d, fns)  # noqa: E731
         C = lambda: self.cond(names)  # noqa: E731
-        if kind == "expr":
+        if kind == "local_import":
+            # a function-local import binds h1 to the helper module's h1 inside this function, although the module itself
+            # defines another h1: the local binding is what a plain call means here
+            lines.append(f"from {self.helper} import h1")
+            lines.append(f"a = h1({E(1)})")
+            names.append("a")
+            lines.append(f"return a + h1({rng.choice(params)}) * {E(1)}")
+            self.features.add("nested_call")
+        elif kind == "expr":
             lines.append(f"return {E(3)}")
         elif kind == "assign":
             lines.append(f"a = {E()}")
@@ -262,10 +270,10 @@ class Gen:
 
     def module(self, nfun: int = 6) -> tuple[str, list[dict]]:
         rng = self.rng
-        head = f'"""generated"""\nimport math\nimport {self.helper}\nfrom {self.helper} import h2\n\nC1 = 1.25\ny = 0.75  # shadowed by the argument y wherever a function has one\n\n\n'
+        head = f'"""generated"""\nimport math\nimport {self.helper}\nfrom {self.helper} import h2\n\nC1 = 1.25\ny = 0.75  # shadowed by the argument y wherever a function has one\n\n\ndef h1(a):\n    return a * 3.0 + 1.0\n\n\n'
         src = [head]
         meta: list[dict] = []
-        fns: list[tuple[str, int]] = [(f"{self.helper}.h1", 1), ("h2", 2), (f"{self.helper}.h3", 2)]
+        fns: list[tuple[str, int]] = [(f"{self.helper}.h1", 1), ("h2", 2), (f"{self.helper}.h3", 2), ("h1", 1)]
         # leaf helpers in the same module first, so later functions can call them
         for i in range(nfun):
             npar = rng.randint(1, 3)
